@@ -9,6 +9,7 @@ import (
 	"runtime"
 	"sync"
 	"sync/atomic"
+	"syscall"
 	"time"
 )
 
@@ -25,6 +26,46 @@ type slot struct {
 	mu    sync.Mutex
 	what  string
 	since time.Time
+	mem   []byte // optional mmap-backed copy of what, readable by the parent after a fatal crash
+}
+
+const slotSize = 8192
+
+var journalMem []byte
+
+// InitJournal backs the per-worker journal with a shared file mapping so that
+// the parent process can read the cases in flight after a fatal runtime error
+// (stack overflow, out of memory) killed the child.
+func InitJournal(path string) {
+	f, err := os.OpenFile(path, os.O_RDWR|os.O_CREATE|os.O_TRUNC, 0o644)
+	if err != nil {
+		return
+	}
+	defer f.Close()
+	size := 256 * slotSize
+	if f.Truncate(int64(size)) != nil {
+		return
+	}
+	m, err := syscall.Mmap(int(f.Fd()), 0, size, syscall.PROT_READ|syscall.PROT_WRITE, syscall.MAP_SHARED)
+	if err == nil {
+		journalMem = m
+	}
+}
+
+// ReadJournal returns the non-empty entries of a journal file.
+func ReadJournal(path string) []string {
+	b, err := os.ReadFile(path)
+	if err != nil {
+		return nil
+	}
+	var out []string
+	for off := 0; off+slotSize <= len(b); off += slotSize {
+		n := int(b[off]) | int(b[off+1])<<8
+		if n > 0 && n <= slotSize-2 {
+			out = append(out, string(b[off+2:off+2+n]))
+		}
+	}
+	return out
 }
 
 var (
@@ -66,11 +107,22 @@ type Journal struct{ s *slot }
 func (j Journal) Begin(what string) {
 	j.s.mu.Lock()
 	j.s.what, j.s.since = what, time.Now()
+	if j.s.mem != nil {
+		n := len(what)
+		if n > slotSize-2 {
+			n = slotSize - 2
+		}
+		copy(j.s.mem[2:], what[:n])
+		j.s.mem[0], j.s.mem[1] = byte(n), byte(n>>8)
+	}
 	j.s.mu.Unlock()
 }
 func (j Journal) End() {
 	j.s.mu.Lock()
 	j.s.what = ""
+	if j.s.mem != nil {
+		j.s.mem[0], j.s.mem[1] = 0, 0
+	}
 	j.s.mu.Unlock()
 }
 
@@ -91,6 +143,10 @@ func For(n int, stop func() bool, fn func(i int, j Journal)) int {
 		wg.Add(1)
 		s := &slot{}
 		slotsMu.Lock()
+		if journalMem != nil && (w+1)*slotSize <= len(journalMem) {
+			// par.For calls are sequential: worker w reuses slot w
+			s.mem = journalMem[w*slotSize : (w+1)*slotSize]
+		}
 		slots = append(slots, s)
 		slotsMu.Unlock()
 		go func() {
